@@ -18,6 +18,8 @@ OBLIGATIONS = [
     (P + "write_parse_roundtrip_second", "under NumIdem the second round is exact: parse (save mode (mapNum rt v)) = mapNum rt v"),
     (P + "roundtrip_counterexample_nonfinite", "known finding: a number member holding inf is written as `inf`, which does not parse"),
     (P + "roundtrip_counterexample_invalid_utf8", "known finding: a string member holding the byte FF is written raw and rejected by the parser"),
+    (P + "roundtrip_counterexample_dbl_max", "known finding (found by this check): DBL_MAX is written as 1.797693134862316e+308, which overflows on parse"),
+    (P + "full_roundtrip_false", "the full-strength round-trip statement is false of the model instantiated with exact binary64"),
     (P + "write_undefined_throws", "a tree with an undefined member cannot be written (model of bad_value_cast)"),
     (P + "depth_bound_exact", "n nested arrays parse iff 1 <= n <= 512"),
     (P + "int_extraction_exact_or_throws", "integer extraction returns the exact integer value of the double, in range, or throws"),
